@@ -2,6 +2,7 @@ package main
 
 import (
 	"fmt"
+	"os"
 	"regexp"
 	"strings"
 
@@ -356,6 +357,9 @@ func relCheck(w *run.Worker, st *relState, prop string, p *gen.Pipeline, src str
 			w.Count("reference_undefined", 1)
 			if f, ok := extra["family"].(string); ok {
 				w.Count("reference_undefined:"+f, 1)
+				if os.Getenv("VERIF_DEBUG_UNDEF") != "" && di == 1 {
+					fmt.Fprintf(os.Stderr, "undefined: %s: %v\n", src, werr)
+				}
 			}
 			continue
 		}
@@ -427,7 +431,7 @@ func c02DBs(maxRows int) []rel.DB {
 
 func c02Main(r *run.Runner) {
 	r.Rule = "explicit-state exploration of the subquery splitter: every operator sequence of length <= d over 34 schema-aware operator variants (all eleven operators, from base table T(a,b)) is compiled by the real compiler; the emitted SQL is read by the independent reader and executed by a list-semantics SQL evaluator on EVERY database instance (all row lists of <= m rows over a in {NULL,1,2}, b in {1,2}); " +
-		"the result must equal what a left-to-right interpreter of the source pipeline returns: same column names in order, same rows, same order wherever a sort determines it. states = operator sequences explored (each is a distinct state of the splitter: last operator kind, pending sort/take, names in scope), transitions = operator applications, traces validated = (sequence, database) executions compared"
+		"plus a deep-and-narrow sweep (d+2 operators over canonical variants), wide families (k columns / terms / aggregates / keys / operators for every k in 1..65, thorough ..257), every spelling of sort terms (direction x nulls clause x defaults) and of the two-keyword operators, and programs whose names coincide (alias = table, = dropped column, = as-name, = implicit column); the result must equal what a left-to-right interpreter of the source pipeline returns: same column names in order, same rows, same order wherever a sort determines it. states = operator sequences explored (each is a distinct state of the splitter: last operator kind, pending sort/take, names in scope), transitions = operator applications, traces validated = (sequence, database) executions compared"
 	r.Assume = []string{"list semantics: FROM/CTE order is preserved, ORDER BY is stable, GROUP BY yields groups in first-appearance order", "aggregates and scalar primitives are those of package sem"}
 	d, m := 3, 3
 	if r.Thorough() {
@@ -473,6 +477,66 @@ func c02Main(r *run.Runner) {
 			relCheck(w, get(w), "C02", p, src, deepDBs, nil)
 		}
 	})
+	// every spelling of a sort term (direction x nulls clause, defaults included) on two keys, with and without
+	// operators before and after; every spelling of the operators that have two keywords
+	var forms []string
+	for _, d := range []string{"", " asc", " desc"} {
+		for _, nl := range []string{"", " nulls first", " nulls last"} {
+			forms = append(forms, d+nl)
+		}
+	}
+	var spell []string
+	for _, pre := range []string{"T", "T | where b > 0", "T | extend c = a + b", "T | take 2", "T | sort by b asc"} {
+		for _, suf := range []string{"", " | take 2", " | where b < 2", " | project b, a", " | summarize n = count() by a", " | top 2 by b asc nulls last", " | limit 1 | count"} {
+			for _, f1 := range forms {
+				for _, f2 := range forms {
+					spell = append(spell, pre+" | sort by a"+f1+", b"+f2+suf, pre+" | order by b"+f2+", a"+f1+suf)
+				}
+				spell = append(spell, pre+" | top 2 by a"+f1+suf, pre+" | order by a + b"+f1+", b"+suf)
+			}
+			for _, kw := range []string{"where", "filter"} {
+				for _, lim := range []string{"take", "limit"} {
+					for _, so := range []string{"sort", "order"} {
+						spell = append(spell, pre+" | "+kw+" a > 0 | "+so+" by b asc, a | "+lim+" 2"+suf, pre+" | "+lim+" 2 | "+so+" by a | "+kw+" b > 1"+suf)
+					}
+				}
+			}
+		}
+	}
+	r.Sweep("spellings", int64(len(spell)), func(w *run.Worker, item int64) {
+		p, err := gen.ReadPipeline(spell[item])
+		if err != nil {
+			w.HarnessError(fmt.Sprintf("spelling does not read: %v\n%s", err, spell[item]))
+			return
+		}
+		pr := gen.Print(gen.Single(p))
+		relCheck(w, get(w), "C02", p, pr.Layout(pr.Uniform(" ")).Source, small, map[string]any{"family": "spellings"})
+	})
+	// names that coincide: aliases named like the table, like dropped or earlier columns, like `as` names, like implicit columns
+	coincide := []string{
+		"T | project T = a | where T > 1", "T | as T | where a > 1 | project b", "T | extend T = b | sort by T asc, a | take 2",
+		"T | project b | extend a = b + 1 | where a > 2", "T | project a | extend b = a + 1 | project a = b, b = a | sort by a asc",
+		"T | project x = a | extend y = x | project x = y | where x > 1", "T | summarize n = count() by a | summarize n = max(n) by a | sort by a",
+		"T | summarize a = count() by b | project a | sort by a", "T | summarize b = max(b) by a | where b > 1 | project a, b | sort by a",
+		"T | as X | where a > 0 | as X | count", "T | as X | project X = a | where X > 1", "T | as a | where a > 1",
+		"T | summarize count() by a | summarize count() by a | sort by a", "T | summarize max(a) by b | summarize max(b) by m = `max ( a )` | sort by m",
+		"T | extend `count()` = a | summarize count() by b | sort by b", "T | count | extend a = `count()` + 1 | project a, `count()`",
+		"T | extend `a + 1` = b | extend a + 1 | project a, b", "T | summarize x = max(a), y = max(a) by b | where x == y | project b | sort by b",
+		"T | project a, c = a | where c > 1 | project c, a | sort by a | take 1", "T | extend c = a | project-away-not-an-operator",
+		"T | project n1 = a | project n2 = n1 | project n1 = n2 | sort by n1 | take 2", "T | sort by a | project a = b | sort by a asc | take 2",
+		"T | top 2 by a | project a = b, c = a | top 1 by a", "T | where a > 0 | project b = a, a = b | where a > 1 | project b",
+		"T | summarize n = count() by a | project a = n, n = a | sort by n", "T | extend sort = a, by = b | sort by sort asc, `by` | take 2",
+		"T | project `where` = a, `take` = b | where `where` > 1 | take 1", "T | extend x = a | extend x2 = x + 1 | extend x3 = x2 + x | project x3, x | sort by x3",
+	}
+	r.Sweep("coinciding-names", int64(len(coincide)), func(w *run.Worker, item int64) {
+		p, err := gen.ReadPipeline(coincide[item])
+		if err != nil {
+			return // not in the reader's grammar (kept in the list as documentation of what is excluded)
+		}
+		pr := gen.Print(gen.Single(p))
+		relCheck(w, get(w), "C02", p, pr.Layout(pr.Uniform(" ")).Source, dbs, map[string]any{"family": "coinciding-names"})
+	})
+	r.Extra["spellings"] = len(spell)
 	wideDBs := c02DBs(2)
 	if r.Thorough() {
 		wideDBs = dbs
